@@ -16,19 +16,21 @@ pub struct Message { _p: () }
 
 // tokio_postgres::Client: what was sent on this connection, in order
 pub enum Sent { SimpleQuery(Seq<char>), Prepare(Seq<char>, Seq<Type>) }
-pub struct PgClient { pub cid: Ghost<int>, pub closed: Ghost<bool>, pub sent: Ghost<Seq<Sent>>, pub prepared: Ghost<Seq<int>> }
+// `outcomes`: for every simple query sent, whether the server answered it without error
+pub struct PgClient { pub cid: Ghost<int>, pub closed: Ghost<bool>, pub sent: Ghost<Seq<Sent>>, pub prepared: Ghost<Seq<int>>, pub outcomes: Ghost<Seq<bool>> }
 impl PgClient {
     #[verifier::external_body]
     pub fn is_closed(&self) -> (r: bool) ensures r == self.closed@ { unimplemented!() }
     // client.simple_query(sql).await
     #[verifier::external_body]
     pub fn simple_query(&mut self, sql: &Str) -> (r: Ctl<Result<Vec<Message>, Error>>)
-        ensures final(self).cid == old(self).cid, final(self).sent@ == old(self).sent@.push(Sent::SimpleQuery(sql@)), final(self).prepared == old(self).prepared
+        ensures final(self).cid == old(self).cid, final(self).sent@ == old(self).sent@.push(Sent::SimpleQuery(sql@)), final(self).prepared == old(self).prepared,
+            final(self).outcomes@ == old(self).outcomes@.push(r matches Ctl::Done(Ok(_)))
     { unimplemented!() }
     // client.prepare_typed(query, types).await: a statement prepared on THIS connection (its id is recorded)
     #[verifier::external_body]
     pub fn prepare_typed(&mut self, query: &Str, types: &[Type]) -> (r: Ctl<Result<Statement, Error>>)
-        ensures final(self).cid == old(self).cid, final(self).closed == old(self).closed,
+        ensures final(self).cid == old(self).cid, final(self).closed == old(self).closed, final(self).outcomes == old(self).outcomes,
             final(self).sent@ == old(self).sent@.push(Sent::Prepare(query@, types@)),
             r matches Ctl::Done(Ok(s)) ==> final(self).prepared@ == old(self).prepared@.push(s.sid),
             !(r matches Ctl::Done(Ok(_))) ==> final(self).prepared == old(self).prepared,
